@@ -54,7 +54,9 @@ def chk_identities(inp):
     cases = [("vk", 8, 0.1, 0.2, 20., {"n_columns": 2}), ("vk", 11, 0.25, 0.15, 10., {"n_columns": 3}), ("k", 9, 0.2, 0.2, 15., {"stencil_length_factor": 2}),
              ("k", 12, 0.15, 0.2, 15., {"stencil_length_factor": 2}), ("k", 20, 0.1, 0.25, 30., {"stencil_length_factor": 1}),
              # separations beyond the outer scale (the covariance is small there, not zero)
-             ("vk", 16, 0.5, 0.2, 5., {"n_columns": 2}), ("vk", 12, 1.0, 0.2, 6., {"n_columns": 2}), ("k", 9, 0.5, 0.2, 3., {"stencil_length_factor": 2})]
+             ("vk", 16, 0.5, 0.2, 5., {"n_columns": 2}), ("vk", 12, 1.0, 0.2, 6., {"n_columns": 2}), ("k", 9, 0.5, 0.2, 3., {"stencil_length_factor": 2}),
+             # very large outer scales (the near-Kolmogorov regime): the screen must build, and the identities hold relative to the (huge) variance
+             ("vk", 8, 0.2, 0.5, 1e3, {"n_columns": 2}), ("vk", 8, 0.2, 0.5, 1e5, {"n_columns": 2}), ("vk", 8, 0.2, 0.5, 1e6, {"n_columns": 2}), ("k", 9, 0.2, 0.2, 1e5, {"stencil_length_factor": 2})]
     for kind, n, pix, r0, L0, kw in cases:
         cls = aotools.PhaseScreenVonKarman if kind == "vk" else aotools.PhaseScreenKolmogorov
         scr = cls(n, pix, r0, L0, random_seed=5, **kw)
@@ -69,7 +71,8 @@ def chk_identities(inp):
             pass
         e1 = abs(A @ Czz - Cxz).max() / c0
         e2 = abs(A @ Czz @ A.T + B @ B.T - Cxx).max() / c0
-        tol = 2e-5
+        # measured on the unchanged tree: 1e-12 for L0 <= 30 m, 4e-11 at 1 km, 5e-7 at 1e5..1e6 m (conditioning of Cov_zz: its entries differ by 1e-8 relative)
+        tol = 1e-9 if L0 <= 1e3 else 2e-5
         if e1 > tol or e2 > tol:
             return bad("%s(%d, pixel_scale=%g, r0=%g, L0=%g): A Cov_zz = Cov_xz / A Cov_zz A^T + B B^T = Cov_xx fail against the von Karman covariance at the true pixel separations" % (cls.__name__, n, pix, r0, L0),
                        [float(e1), float(e2)], "< %g x Cov(0)" % tol)
